@@ -180,6 +180,15 @@ def check(spec, ctx):
             if names[key] in by and float(by[names[key]]) != float(val):
                 ctx.fail(f"compute_geometric_features({kind}) {key} = {by[names[key]]} inconsistent with bounds {val}", spec, by[names[key]], val, kind="feature_value")
 
+    # --- the returned list belongs to the caller: changing it must not influence later results
+    feats.append(data.Feature(term=terms.num_segments if "n" not in want else terms.duration, value=12345.0))
+    feats.reverse()
+    again = geometry.compute_geometric_features(g)
+    if sorted((f.term.name, float(f.value)) for f in again) != sorted((names[k], float(v)) for k, v in want.items()) and not time_only:
+        ctx.fail(f"compute_geometric_features({kind}) changed after the caller modified an earlier result: {[(f.term.label, f.value) for f in again]}", spec, None, None, kind="result_aliased")
+    if time_only and any(f.value == 12345.0 for f in again):
+        ctx.fail(f"compute_geometric_features({kind}) returns a list shared between calls (a caller's append shows up in the next result)", spec, None, None, kind="result_aliased")
+
     # --- named positions
     tl, fl, tr, fh = eb
     tm, fm = (tl + tr) / 2, (fl + fh) / 2
